@@ -267,6 +267,9 @@ func TestVerifExplorerPush(t *testing.T) {
 	keys := vhNewKeys("explorer|" + os.Getenv("VERIF_SEED"))
 	for _, sc := range scs {
 		phxRunScenario(tr, keys, sc)
+		tr.mu.Lock()
+		tr.w.Flush()
+		tr.mu.Unlock()
 	}
 	tr.Close()
 	fmt.Printf("VERIF-REPLAYED %d scenarios\n", len(scs))
